@@ -167,10 +167,15 @@ pub mod payload {
 
     /// Decode varint-prefixed data payload.
     pub fn decode<R: io::Read + ?Sized>(reader: &mut R) -> Result<Vec<u8>, wire::Error> {
-        let size = VarInt::decode(reader)?;
-        let mut data = vec![0; *size as usize];
-        reader.read_exact(&mut data[..])?;
+        let size = *VarInt::decode(reader)?;
+        // Nb. The size is chosen by the remote peer. Don't allocate it up front,
+        // only allocate as the data is actually read.
+        let mut data = Vec::new();
+        let read = io::Read::read_to_end(&mut io::Read::take(&mut *reader, size), &mut data)?;
 
+        if (read as u64) < size {
+            return Err(io::Error::from(io::ErrorKind::UnexpectedEof).into());
+        }
         Ok(data)
     }
 }
